@@ -66,18 +66,21 @@ static void *app_main(void *arg)
 				__atomic_fetch_add(&a->started, 1, __ATOMIC_SEQ_CST);
 			}
 			uint32_t x = vp_rand_n(&t->rng, 100);
-			if (x < 80)
-				vp_spin_cycles(2000 + vp_rand_n(&t->rng, 400000));
-			else if (x < 95) {
+			if (x < 70)
+				vp_spin_cycles(1000 + vp_rand_n(&t->rng, 100000));
+			else if (x < 90) {
 				rcu_read_lock();	/* nested */
 				vp_spin_cycles(1000 + vp_rand_n(&t->rng, 50000));
 				rcu_read_unlock();
 			} else
-				usleep(100 + vp_rand_n(&t->rng, 900));
+				usleep(50 + vp_rand_n(&t->rng, 300));
 			VP_STORE(a->insec[t->idx], 0);
 			rcu_read_unlock();
 			t->sections++;
-			if (vp_rand_n(&t->rng, 4) == 0)
+			/* mostly asleep outside sections: 32 readers share 3 CPUs with the helpers */
+			if (vp_rand_n(&t->rng, 10) < 7)
+				usleep(50 + vp_rand_n(&t->rng, 400));
+			else
 				vp_spin_cycles(vp_rand_n(&t->rng, 20000));
 		}
 		break;
